@@ -180,7 +180,7 @@ theorem infer_spec (ctx : Ctx) (fuel : Nat) :
             have hDn := noInt_of_not_reserved D hr
             obtain ⟨i2, c2, e2, -, -, b2⟩ := allocFor_spec (dedupStr D.ustvars) st inv cb
             have hT := instS_bounded b2 D hDn
-            exact ⟨i2, c2, e2, hT, ⟨_, rfl, hT⟩, .constDef n D _ hdf hDn, fun τ _ => by simp [Skel.substI, checkedGetType]⟩
+            exact ⟨i2, c2, e2, hT, ⟨_, rfl, hT⟩, .constDef n D _ hs hdf hDn, fun τ _ => by simp [Skel.substI, checkedGetType]⟩
       | some S =>
         simp only [hs] at h
         cases hst : S.hasStvar with
